@@ -1135,7 +1135,11 @@ func randNested(r *lib.Rng, tier string) *Case {
 				nSub++
 				used = append(used, id)
 			}
-			c.Calls = append(c.Calls, Call{Op: "sub", Key: k, ID: id, Kind: kinds[r.Intn(len(kinds))]})
+			sc := Call{Op: "sub", Key: k, ID: id, Kind: kinds[r.Intn(len(kinds))]}
+			if r.Chance(1, 4) {
+				randOpts(r, &sc, "graph") // the node's own compile options: what the child is compiled with
+			}
+			c.Calls = append(c.Calls, sc)
 		} else {
 			c.Calls = append(c.Calls, Call{Op: "addnode", Key: k, Kind: []string{"lambda", "lambda", "pass"}[r.Intn(3)]})
 		}
